@@ -12,7 +12,7 @@ PROPERTY = 'C09'
 LEVEL = 'proof'
 REQUIRED_THEOREMS = ['Properties.C09.exec_knots_valid', 'Properties.C09.knots_valid', 'Properties.C09.binSearch_spec', 'Properties.C09.spline_strictMonoOn',
                      'Properties.C09.spline_maps_endpoints', 'Properties.C09.spline_mapsTo_box',
-                     'Properties.C09.rq_executed_strictMonoOn', 'Properties.C09.tails_identity', 'Properties.C09.exec_linear_cdf_valid', 'Properties.C09.exec_unit_locs_valid', 'Properties.C09.rq_program_strictMonoOn', 'Properties.C09.rq_program_endpoints', 'Properties.C09.rq_program_mapsTo', 'Properties.C09.rq_program_inverse_bijection', 'Properties.C09.cubic_program_bijection', 'Properties.C09.quad_program_bijection', 'Properties.C09.quad_tails_program_bijection', 'Properties.C09.rq_tails_program_whole_line', 'Properties.C09.quad_tails_program_whole_line', 'Properties.C09.cubic_tails_program_whole_line', 'Properties.C09.quad_program_inverse_bijection']
+                     'Properties.C09.rq_executed_strictMonoOn', 'Properties.C09.tails_identity', 'Properties.C09.exec_linear_cdf_valid', 'Properties.C09.exec_unit_locs_valid', 'Properties.C09.rq_program_strictMonoOn', 'Properties.C09.rq_program_endpoints', 'Properties.C09.rq_program_mapsTo', 'Properties.C09.rq_program_inverse_bijection', 'Properties.C09.cubic_program_bijection', 'Properties.C09.quad_program_bijection', 'Properties.C09.quad_tails_program_bijection', 'Properties.C09.rq_tails_program_whole_line', 'Properties.C09.quad_tails_program_whole_line', 'Properties.C09.cubic_tails_program_whole_line', 'Properties.C09.quad_program_inverse_bijection', 'Properties.C09.cubic_program_inverse_bijection', 'Properties.C09.linear_program_bijection']
 RULE = ("cases = (family, tails, K, parameter regime, box/tail bound, atom kind) with per-element parameter rows; "
         "atoms: every knot (independent torch recomputation), nextafter neighbours, end-points, tail junction +-1ulp, far tails, "
         "random interior; a case is non-trivial when the model output differs from the input (not the identity) and distinct by "
